@@ -5,5 +5,6 @@ CONSTANTS
   BROKENQ = FALSE
   VERIFY_CKSUM = TRUE
   UNK_ERR_IS_ERR = TRUE
-INVARIANTS QuoteBounded QuoteIsPrefixLen QuoteMaximal EchoAnswered NoReplyToErrorOrMalformed ErrorsNotified AtMostOneReply RouterNeverAnswersError Emit
+  ROUTER_VERIFY_CKSUM = TRUE
+INVARIANTS QuoteBounded QuoteIsPrefixLen QuoteMaximal EchoAnswered NoReplyToErrorOrMalformed ErrorsNotified AtMostOneReply RouterNeverAnswersError RouterEchoAnswered RouterEchoNoReplyToErrorOrMalformed Emit
 CHECK_DEADLOCK FALSE
